@@ -97,7 +97,8 @@ def strv(s):
 
 
 def str_axioms():
-    ax = [str_id(NONE) == 0]
+    from .ops import vt_axiom
+    ax = [str_id(NONE) == 0, vt_axiom()]
     for s, (c, i) in _str_consts.items():
         ax.append(str_id(c) == i)
     return ax
@@ -220,10 +221,10 @@ class PyZip:
 
 
 class Exc:
-    __slots__ = ("cls", "payload")
+    __slots__ = ("cls", "payload", "origin")
 
-    def __init__(self, cls, payload=None):
-        self.cls, self.payload = cls, payload
+    def __init__(self, cls, payload=None, origin="callee"):
+        self.cls, self.payload, self.origin = cls, payload, origin
 
     def __repr__(self):
         return f"Exc({self.cls})"
@@ -505,6 +506,9 @@ class Engine:
         if isinstance(v, Ref):
             if v.kind == "list":
                 return ListV(self, v, heap)
+            if v.kind == "iter":
+                from . import generators
+                return generators.resolve_iter(self, v, heap)
             return ObjV(self, v, heap)
         if isinstance(v, Opq):
             return v.t
@@ -523,7 +527,11 @@ class Engine:
             ns.__dict__["old"] = Namespace({k: self.resolve(v, entry.heap) for k, v in entry.env.items()})
             # entry bindings resolved against the *current* heap (array contents now)
             ns.__dict__["arg"] = Namespace({k: self.resolve(v, st.heap) for k, v in entry.env.items()})
-        ns.__dict__["ghost"] = Namespace(st.ghost)
+        ns.__dict__["ghost"] = Namespace({k: self.resolve(v, st.heap) for k, v in st.ghost.items()
+                                          if not k.startswith("#")})
+        if "#out" in st.ghost:
+            from . import generators
+            ns.__dict__["out"] = generators.SeqV(st.ghost["#nout"], st.ghost["#out"])
         return ns
 
     # -- obligations ----------------------------------------------------------------
@@ -534,8 +542,13 @@ class Engine:
                            getattr(node, "lineno", 0) or getattr(self, "cur_line", 0), clause))
 
     def oblige_clauses(self, kind, prefix, st, clauses, node=None):
+        """One VC per clause.  A clause labelled ``hint: ...`` is proved like any other and then added to
+        the hypotheses of the clauses after it (cut rule) - it helps the solver, it assumes nothing."""
         for label, f in normalize_clauses(clauses):
-            self.oblige(kind, f"{prefix}:{label}", st, self.S.b(f), node, clause=label)
+            f = self.S.b(f)
+            self.oblige(kind, f"{prefix}:{label}", st, f, node, clause=label)
+            if label.startswith("hint:"):
+                st = st.assume(f)
 
     def canary(self, label, st, node=None):
         self.canaries += 1
@@ -580,6 +593,12 @@ class Engine:
             return bool2v(v)
         if z3.is_int(v):
             return int2v(v)
+        if isinstance(v, Ref):
+            return z3.Const("obj:" + v.base, V)
+        if isinstance(v, Arr):
+            return z3.Const("arr:" + v.base, V)
+        if isinstance(v, Named):
+            return z3.Const("global:" + v.name, V)
         raise Unsupported(f"cannot lift {type(v).__name__} to V")
 
     def to_int(self, v):
@@ -1006,6 +1025,82 @@ class Engine:
         from . import library
         return library.call(self, e, st, fr, k)
 
+    def ev_Yield(self, e, st, fr, k):
+        from . import generators
+        if e.value is None:
+            return generators.do_yield(self, PNONE, st, fr, k, e)
+        return self.ev(e.value, st, fr, lambda v, s: generators.do_yield(self, v, s, fr, k, e))
+
+    def ev_GeneratorExp(self, e, st, fr, k):
+        return self.comprehension(e, st, fr, k, "gen")
+
+    def ev_ListComp(self, e, st, fr, k):
+        return self.comprehension(e, st, fr, k, "list")
+
+    def ev_SetComp(self, e, st, fr, k):
+        return self.comprehension(e, st, fr, k, "set")
+
+    def ev_DictComp(self, e, st, fr, k):
+        return self.comprehension(e, st, fr, k, "dict")
+
+    def comprehension(self, e, st, fr, k, kind):
+        """Single-generator comprehensions.  Concrete sequences are unrolled; an array / opaque iterable is
+        treated with the arbitrary-element rule (element expressions are assumed free of side effects)."""
+        if len(e.generators) != 1 or e.generators[0].is_async:
+            raise Unsupported("nested comprehension")
+        g = e.generators[0]
+
+        def with_iter(it, s0):
+            items = None
+            if isinstance(it, (list, tuple)):
+                items = list(it)
+            elif isinstance(it, dict):
+                items = list(it.keys())
+            if items is not None:
+                out = []
+
+                def go(i, s1):
+                    if i == len(items):
+                        if kind == "dict":
+                            return k(dict(out), s1)
+                        return k(list(out), s1)
+                    def bound(s2):
+                        def conds(j, s3):
+                            if j == len(g.ifs):
+                                if kind == "dict":
+                                    return self.ev_list([e.key, e.value], s3, fr,
+                                                        lambda kv, s4: (out.append((kv[0], kv[1])), go(i + 1, s4))[1])
+                                return self.ev(e.elt, s3, fr, lambda v, s4: (out.append(v), go(i + 1, s4))[1])
+                            def after(cv, s4):
+                                c = z3.simplify(self.truth(cv))
+                                if z3.is_true(c):
+                                    return conds(j + 1, s4)
+                                if z3.is_false(c):
+                                    return go(i + 1, s4)
+                                raise Unsupported("comprehension filter that is not decided on a concrete sequence")
+                            return self.ev(g.ifs[j], s3, fr, after)
+                        return conds(0, s2)
+                    return self.assign(g.target, items[i], s1, fr, bound, e)
+                return go(0, s0)
+            # symbolic iterable: arbitrary element
+            if isinstance(it, Arr) and it.field is not None and not g.ifs and kind in ("list", "gen"):
+                arr = self.heap_field(s0.heap, it.base, it.field)
+                raise Unsupported("comprehension over an array column")
+            if isinstance(it, Opq) or (isinstance(it, Ref) and it.kind in ("iter",)):
+                self.assumptions.add(f"comprehension at line {e.lineno} of {self.cur.key}: element expressions have no "
+                                     "side effects; the result is an opaque value")
+                elem = Opq(self.fresh("elem", "V"))
+                res = Opq(self.fresh("comp", "V"))
+
+                def bound(s2):
+                    exprs = list(g.ifs) + ([e.key, e.value] if kind == "dict" else [e.elt])
+                    # evaluate for obligations and possible raises; then continue from the state before
+                    return self.ev_list(exprs, s2, fr, lambda vs, s3: None)
+                self.assign(g.target, elem, s0, fr, bound, e)
+                return k(res, s0)
+            raise Unsupported(f"comprehension over {type(it).__name__}")
+        return self.ev(g.iter, st, fr, with_iter)
+
     def ev_Lambda(self, e, st, fr, k):
         return k(Closure(e, st.env), st)
 
@@ -1081,6 +1176,13 @@ class Engine:
         if isinstance(tgt, ast.Name):
             if isinstance(v, Vec):
                 v, st = self.materialize(v, st, tgt.id)
+            if isinstance(v, dict) and (self.cur.local_sorts if self.cur else {}).get(tgt.id) == "V":
+                # a literal dict stored into a dynamically typed local: an opaque value with known items
+                d = self.fresh("dict", "V")
+                gi = z3.Function("getitem", V, V, V)
+                for key, val in v.items():
+                    st = st.assume(gi(d, self.to_v(key)) == self.to_v(val))
+                v = Opq(d)
             v = self.coerce_local(tgt.id, v)
             return k(st.bind(tgt.id, v))
         if isinstance(tgt, (ast.Tuple, ast.List)):
@@ -1278,12 +1380,12 @@ class Engine:
             cls = name.split(".")[-1]
             # evaluate arguments that are plain names (e.g. MailboxKilled(self.killed_because))
             def cont(args, s1):
-                return fr.on_raise(Exc(cls, tuple(args)), s1)
+                return fr.on_raise(Exc(cls, tuple(args), origin="stmt"), s1)
             simple = [a for a in exc.args if not isinstance(a, (ast.JoinedStr, ast.Constant, ast.BinOp))]
             return self.ev_list(simple, st, fr, cont)
         name = dotted_name(exc)
         if name is not None and name.split(".")[-1] in EXC_PARENT and name not in st.env:
-            return fr.on_raise(Exc(name.split(".")[-1]), st)
+            return fr.on_raise(Exc(name.split(".")[-1], origin="stmt"), st)
         # raise of a value held in a variable
         return self.ev(exc, st, fr, lambda v, s1: fr.on_raise(v if isinstance(v, Exc) else Exc("Any", v), s1))
 
